@@ -7,6 +7,7 @@ import traceback
 from .core import Ctx, HarnessError, assert_repo_binding
 
 LEVELS = {"C08": "fault_enumeration"}
+SCHED_PROPS = {"C06", "C07", "C09", "C10", "C14", "C16", "C17"}
 
 
 def main(argv):
@@ -17,6 +18,10 @@ def main(argv):
     from .core import scratch_top
 
     scratch_top()  # one scratch directory per run (also TMPDIR), removed at exit
+    if prop in SCHED_PROPS:
+        # these checks run (part of) their exploration under the controlled thread scheduler: the lock factories have to
+        # be in place before anything imports the library
+        importlib.import_module("vf.checks.c09").preimport()
     mod = importlib.import_module("vf.checks.%s" % prop.lower())
     try:
         # third-party imports first (some checks patch threading before importing memento)
